@@ -10,32 +10,32 @@ open Hub.Store Hub.Frame
 
 /-- T-C06-1 (frame): a batch committed at time `t` changes no reference key of another time, adds
 only version keys of time `t`, and leaves the set of deleted datasets alone. -/
-theorem frame (db : DB) (ds t : Nat) (b : List Ent) :
-    (storeBatch db ds t b).refs.filter (fun r => decide (r.t ≠ t)) = db.refs.filter (fun r => decide (r.t ≠ t))
-    ∧ (∃ new, (storeBatch db ds t b).versions = db.versions ++ new ∧ ∀ v ∈ new, v.1.t = t ∧ v.1.ds = ds)
-    ∧ (storeBatch db ds t b).deletedDs = db.deletedDs :=
-  writeFrom_frame db ds t b 0 (db, [])
+theorem frame (db : DB) (ds t : Nat) (b : List Ent) (nw : List Nat := []) :
+    (storeBatch db ds t b nw).refs.filter (fun r => decide (r.t ≠ t)) = db.refs.filter (fun r => decide (r.t ≠ t))
+    ∧ (∃ new, (storeBatch db ds t b nw).versions = db.versions ++ new ∧ ∀ v ∈ new, v.1.t = t ∧ v.1.ds = ds)
+    ∧ (storeBatch db ds t b nw).deletedDs = db.deletedDs :=
+  writeFrom_frame db ds t nw b 0 (db, [])
 
 /-- the same for a multi-dataset transaction. -/
-theorem frame_txn (db : DB) (t : Nat) (parts : List (Nat × List Ent)) :
-    (execTxn db t parts).refs.filter (fun r => decide (r.t ≠ t)) = db.refs.filter (fun r => decide (r.t ≠ t))
-    ∧ (∃ new, (execTxn db t parts).versions = db.versions ++ new ∧ ∀ v ∈ new, v.1.t = t)
-    ∧ (execTxn db t parts).deletedDs = db.deletedDs := by
+theorem frame_txn (db : DB) (t : Nat) (parts : List (Nat × List Ent)) (nw : List Nat := []) :
+    (execTxn db t parts nw).refs.filter (fun r => decide (r.t ≠ t)) = db.refs.filter (fun r => decide (r.t ≠ t))
+    ∧ (∃ new, (execTxn db t parts nw).versions = db.versions ++ new ∧ ∀ v ∈ new, v.1.t = t)
+    ∧ (execTxn db t parts nw).deletedDs = db.deletedDs := by
   unfold execTxn
   suffices h : ∀ (ps : List (Nat × List Ent)) (acc : DB),
-      (ps.foldl (fun acc p => (writeFrom db p.1 t 0 p.2 (acc, [])).1) acc).refs.filter (fun r => decide (r.t ≠ t))
+      (ps.foldl (fun acc p => (writeFrom db p.1 t nw 0 p.2 (acc, [])).1) acc).refs.filter (fun r => decide (r.t ≠ t))
           = acc.refs.filter (fun r => decide (r.t ≠ t))
-      ∧ (∃ new, (ps.foldl (fun acc p => (writeFrom db p.1 t 0 p.2 (acc, [])).1) acc).versions = acc.versions ++ new
+      ∧ (∃ new, (ps.foldl (fun acc p => (writeFrom db p.1 t nw 0 p.2 (acc, [])).1) acc).versions = acc.versions ++ new
             ∧ ∀ v ∈ new, v.1.t = t)
-      ∧ (ps.foldl (fun acc p => (writeFrom db p.1 t 0 p.2 (acc, [])).1) acc).deletedDs = acc.deletedDs from h parts db
+      ∧ (ps.foldl (fun acc p => (writeFrom db p.1 t nw 0 p.2 (acc, [])).1) acc).deletedDs = acc.deletedDs from h parts db
   intro ps
   induction ps with
   | nil => intro acc; exact ⟨rfl, ⟨[], by simp, by simp⟩, rfl⟩
   | cons p ps ih =>
     intro acc
     simp only [List.foldl_cons]
-    obtain ⟨h1, ⟨n1, hv1, hn1⟩, hd1⟩ := writeFrom_frame db p.1 t p.2 0 (acc, [])
-    obtain ⟨h2, ⟨n2, hv2, hn2⟩, hd2⟩ := ih (writeFrom db p.1 t 0 p.2 (acc, [])).1
+    obtain ⟨h1, ⟨n1, hv1, hn1⟩, hd1⟩ := writeFrom_frame db p.1 t nw p.2 0 (acc, [])
+    obtain ⟨h2, ⟨n2, hv2, hn2⟩, hd2⟩ := ih (writeFrom db p.1 t nw 0 p.2 (acc, [])).1
     refine ⟨by rw [h2, h1], ⟨n1 ++ n2, by rw [hv2, hv1, List.append_assoc], ?_⟩, by rw [hd2, hd1]⟩
     intro v hv
     rcases List.mem_append.1 hv with hv | hv
